@@ -1149,7 +1149,9 @@ class ParseUniq:
             except ValueError:
                 start_page = nshandler.get_fqname(start_page, page_ns)
                 end_page = nshandler.get_fqname(end_page, page_ns)
-                pages = expander.db.select(start_page, end_page)
+                # (a wiki database that cannot enumerate pages - the default one of parse_txt - has nothing to transclude)
+                select = getattr(expander.db, "select", None)
+                pages = select(start_page, end_page) if select else []
             else:
                 base = vlist.get("index", "")
                 base = nshandler.get_fqname(base, page_ns)
